@@ -835,6 +835,7 @@ def execute(run, props):
                 else:
                     src = SP.Splitter(cfg["docs"][op["doc"] % len(cfg["docs"])]["text"]).split()
                 probe = Protocol(rets)
+                n_src = len(src.blocks)       # (an in-place block middleware may restructure the library it was given)
                 if via == "transform":
                     got = _outcome(lambda: probe.transform(src))
                 elif via == "parse_stack":
@@ -892,8 +893,8 @@ def execute(run, props):
                     V("protocol", "output-library-inconsistent/" + bad_views[0][0], step,
                       f"the library a block middleware's results were put into is inconsistent: {bad_views[0][1]}")
                     return res
-                if len(probe.log) != len(src.blocks) and via != "parse_stack":
-                    V("protocol", "not-every-block-visited", step, f"transform_block was called {len(probe.log)} times for {len(src.blocks)} blocks")
+                if len(probe.log) != n_src and via != "parse_stack":
+                    V("protocol", "not-every-block-visited", step, f"transform_block was called {len(probe.log)} times for {n_src} blocks")
                     return res
                 res.nontrivial = True
                 res.states.add(("block_mw", via, tuple(used), "ok"))
